@@ -65,8 +65,8 @@ Proof.
     + cbn [fst snd]. rewrite Hh. split; [right; repeat split|]. split; [repeat split|discriminate].
 Qed.
 
-Lemma after_refresh_flags : forall c s sr, same_flags sr (after_refresh c s sr).
-Proof. intros. unfold after_refresh. destruct (c_restores_ovf c); repeat split. Qed.
+Lemma after_refresh_flags : forall c s sr r, same_flags sr (after_refresh c s sr r).
+Proof. intros. unfold after_refresh. destruct (restores c r); repeat split. Qed.
 Lemma forget_flags : forall c s, same_flags s (forget c s).
 Proof. intros. unfold forget. destruct (c_resets_shape c); repeat split. Qed.
 
@@ -79,8 +79,8 @@ Proof.
     { subst s1. destruct (c_progress c); [repeat split|].
       destruct (c_vis_unless_transient c && c_transient c); repeat split. }
     pose proof (refresh_flags c s1) as Hf. destruct (refresh c s1) as [sr raised]. cbn [fst] in Hf.
-    pose proof (after_refresh_flags c s sr) as (G1 & G2 & G3).
-    set (s2 := after_refresh c s sr) in *.
+    pose proof (after_refresh_flags c s sr raised) as (G1 & G2 & G3).
+    set (s2 := after_refresh c s sr raised) in *.
     destruct F as (A1 & A2 & A3). destruct Hf as (B1 & B2 & B3). cbn in A1, A2, A3.
     assert (Hh2 : hooks s2 = 1%nat) by congruence.
     destruct raised; cbn [fst].
@@ -292,9 +292,9 @@ Definition view_of (c : cfg) (s : st) : bool :=
 
 (* D18: Progress.start() refreshes after pushing the hook, outside any try: a column that raises
    leaves the hook, the redirection and the hidden cursor behind; __exit__ never runs. *)
-Definition d18_cfg (guarded : bool) : cfg := mkCfg true false OEllipsis 20 5 None (Some 0%nat) guarded false false false false false false false.
+Definition d18_cfg (guarded : bool) : cfg := mkCfg true false OEllipsis 20 5 None (Some 0%nat) guarded false false false false false false false false.
 (* the handler narrowed to `except Exception` and a KeyboardInterrupt raised by a column *)
-Definition d18_narrow_cfg (catches_base : bool) : cfg := mkCfg true false OEllipsis 20 5 None (Some 0%nat) true false false false false false catches_base true.
+Definition d18_narrow_cfg (catches_base : bool) : cfg := mkCfg true false OEllipsis 20 5 None (Some 0%nat) true false false false false false catches_base true false.
 Lemma d18_asis_refuted :
   let s := fst (run_block (d18_cfg false) (w_lines 1) [] []) in
   snd (run_block (d18_cfg false) (w_lines 1) [] []) = true /\ hooks s = 1%nat /\ redir s = true
@@ -319,7 +319,7 @@ Proof. vm_compute. repeat split. Qed.
 
 (* D23: Live.stop() forces vertical_overflow="visible" also when transient: a frame taller than the
    page is printed in full and its rows that scrolled off cannot be erased. *)
-Definition d23_cfg (guard room : bool) : cfg := mkCfg false true OEllipsis 20 3 None None true guard false false room false false false.
+Definition d23_cfg (guard room : bool) : cfg := mkCfg false true OEllipsis 20 3 None None true guard false false room false false false false.
 Definition d23_ops : list op := [Print (w_lines 1); Start; Refresh; Stop].
 Definition d23_run (guard room : bool) (n : nat) : st :=
   fst (run_ops (d23_cfg guard room) (st0 (d23_cfg guard room) (w_lines n)) d23_ops).
@@ -336,7 +336,7 @@ Lemma d23_repaired_ok : view_of (d23_cfg true true) (d23_run true true 5) = true
 Proof. vm_compute. reflexivity. Qed.
 
 (* no overflow handling at all in live_render.LiveRender (Progress): taller than the page = remnants *)
-Definition tall_cfg (crop : bool) : cfg := mkCfg true false OEllipsis 20 3 None None true false false false false crop false false.
+Definition tall_cfg (crop : bool) : cfg := mkCfg true false OEllipsis 20 3 None None true false false false false crop false false false.
 Definition tall_run (crop : bool) : st :=
   fst (run_ops (tall_cfg crop) (st0 (tall_cfg crop) (w_lines 5)) [Start; Print (w_lines 1); Update (w_lines 4) true; Print (w_lines 1)]).
 Lemma progress_too_tall_refuted : view_of (tall_cfg false) (tall_run false) = false.
@@ -346,14 +346,14 @@ Lemma progress_too_tall_repaired_ok : view_of (tall_cfg true) (tall_run true) = 
 Proof. vm_compute. reflexivity. Qed.
 
 (* "visible" overflow of a too-tall frame: documented upstream as not clearable *)
-Definition vis_cfg : cfg := mkCfg false false OVisible 20 3 None None true false false false false false false false.
+Definition vis_cfg : cfg := mkCfg false false OVisible 20 3 None None true false false false false false false false false.
 Lemma visible_too_tall_refuted :
   view_of vis_cfg (fst (run_ops vis_cfg (st0 vis_cfg (w_lines 5)) [Start; Refresh; Print (w_lines 1)])) = false.
 Proof. vm_compute. reflexivity. Qed.
 
 (* restart: stop() keeps LiveRender._shape, so the first draw after a second start() erases rows
    above the cursor that belong to the kept frame (or, when transient, to printed lines) *)
-Definition rs_cfg (tr resets : bool) : cfg := mkCfg false tr OEllipsis 20 8 None None true false false resets false false false false.
+Definition rs_cfg (tr resets : bool) : cfg := mkCfg false tr OEllipsis 20 8 None None true false false resets false false false false false.
 Definition rs_ops : list op := [Print (w_lines 3); Start; Refresh; Stop; Start; Refresh].
 Lemma restart_refuted : forall tr,
   view_of (rs_cfg tr false) (fst (run_ops (rs_cfg tr false) (st0 (rs_cfg tr false) (w_lines 2)) rs_ops)) = false.
